@@ -17,6 +17,7 @@ def run(chk):
     r07b(chk)
     r07c(chk)
     r07d(chk)
+    r07e(chk)
 
 
 # ---------------------------------------------------------------------------
@@ -272,3 +273,44 @@ def r07d(chk, rid='R07.d'):
                 if isinstance(n, ast.Assign) and any(text(t) == 'self.buffer' for t in n.targets):
                     v = const(n.value, default='?')
                     chk.ob(rid, CODEC, f'{cls}.{fname}', f'buffer starts as an empty {kind.__name__}', isinstance(v, kind) and len(v) == 0, f'initialised with {v!r}')
+
+
+def r07e(chk, rid='R07.e'):
+    chk.rule(rid, 'the stream reader reports what was consumed, decided by evaluation: StreamReader.decode is evaluated on its syntax tree with a model of the underlying reader that leaves the last byte of the chunk undecoded (an incomplete multi-byte character): while the encoding or the @charset rule is undecided nothing is consumed and no reader is kept; on the deciding call the consumed count is the one the underlying reader reports - not the length of the chunk - and the reader is kept; afterwards the call is delegated')
+    from sa.absint import Evaluator, Obj, Raised, Record
+
+    m = chk.repo.mod(CODEC)
+    fn = m.get('StreamReader.decode')
+    made = []
+
+    def getreader(enc):
+        def make(stream, errors='strict'):
+            rd = Record(encoding=enc, decode=lambda inp, errors='strict': (f'text[{enc}]', len(inp) - 1))
+            made.append(rd)
+            return rd
+        return make
+
+    def run_case(detect, fixed, encoding=None, force=True, have_reader=False):
+        del made[:]
+        me = Obj(streamreader=None, encoding=encoding, force=force, stream='S', _errors='strict')
+        if have_reader:
+            me.streamreader = Record(decode=lambda inp, errors='strict': ('delegated', 3))
+        intr = {'detectencoding_str': lambda inp, final=False: detect, '_fixencoding': lambda out, enc, final=False: fixed if fixed is None else f'{out}/{enc}',
+                'codecs.getreader': getreader, 'ValueError': 'ValueError'}
+        return Evaluator(fn, intrinsics=intr, module=m, cls='StreamReader').run(self=me, input=b'12345678'), me
+
+    got, me = run_case(('utf-8', True), 'ok')
+    chk.ob(rid, CODEC, 'StreamReader.decode', 'deciding call: the count reported by the underlying reader is returned and the reader is kept', got == ('text[utf-8]/utf-8', 7) and me.streamreader is not None and me.encoding == 'utf-8',
+           f'returns {got!r} for a chunk of 8 bytes of which the underlying reader consumed 7: the bytes of an incomplete trailing character are dropped (or read twice)')
+    got, me = run_case(('utf-8-sig', True), 'ok')
+    chk.ob(rid, CODEC, 'StreamReader.decode', 'utf-8-sig is decoded as such and the @charset rule rewritten to utf-8', got == ('text[utf-8-sig]/utf-8', 7), f'{got!r}')
+    got, me = run_case((None, False), 'ok')
+    chk.ob(rid, CODEC, 'StreamReader.decode', 'undecided encoding: nothing consumed, no reader kept', got == ('', 0) and me.streamreader is None and not made, f'{got!r}, reader kept: {me.streamreader is not None}')
+    got, me = run_case(('utf-8', False), None)
+    chk.ob(rid, CODEC, 'StreamReader.decode', 'incomplete @charset rule: nothing consumed, no reader kept', got == ('', 0) and me.streamreader is None, f'{got!r}, reader kept: {me.streamreader is not None}')
+    got, me = run_case(('utf-8', True), 'ok', have_reader=True)
+    chk.ob(rid, CODEC, 'StreamReader.decode', 'after the decision the call is delegated to the kept reader', got == ('delegated', 3) and not made, f'{got!r}')
+    got, me = run_case(('css', True), 'ok')
+    chk.ob(rid, CODEC, 'StreamReader.decode', "the codec's own name is refused as encoding", isinstance(got, Raised) and got.kind == 'ValueError', f'{got!r}', trivial=True)
+    got, me = run_case(('latin-1', False), 'ok', encoding='koi8-r', force=True)
+    chk.ob(rid, CODEC, 'StreamReader.decode', 'a forced encoding is used without sniffing', got == ('text[koi8-r]/koi8-r', 7), f'{got!r}')
